@@ -91,9 +91,13 @@ def tlc(ctx, module, cfg, *, workers=16, dump=None, timeout=600, simulate=None, 
     d = ctx.sub("tlc." + name)
     for f in glob.glob(os.path.join(SPECS, "*.tla")):
         shutil.copy(f, d)
-    shutil.copy(os.path.join(SPECS, cfg), d)
+    shutil.copy(cfg if os.path.isabs(cfg) else os.path.join(SPECS, cfg), d)
+    cfg = os.path.basename(cfg)
     for f in extra_files:
-        shutil.copy(f, d)
+        if isinstance(f, tuple):
+            shutil.copy(f[0], os.path.join(d, f[1]))
+        else:
+            shutil.copy(f, d)
     cmd = ["java", "-XX:+UseParallelGC", "-Xmx" + heap, "-Xss64m"]
     if deque:
         cmd.append("-Dtlc2.tool.queue.IStateQueue=StateDeque")
@@ -250,6 +254,26 @@ def validate_trace(ctx, module, cfg, tracefile, *, timeout=600, name=None, deque
     else:
         raise MachineryError("trace validation did not complete (%s):\n%s" % (cfg, "\n".join(out.splitlines()[-40:])))
     ctx.log("trace %s: %d events, %s" % (res["name"], n, "accepted" if r["accepted"] else ("INVARIANT %s" % r["violated"] if r["violated"] else "REJECTED at event %s" % r["prefix"])))
+    return r
+
+
+def tlc_trace_file(ctx, module, cfgpath, tracefile, *, name, timeout=600, heap="4g"):
+    """Searching trace validation (breadth-first, -workers 1, high-water mark of the trace index in TLC register 1)
+    with a generated configuration; safe to call from several threads."""
+    res = tlc(ctx, module, cfgpath, workers=1, timeout=timeout, extra_files=[(tracefile, "trace.ndjson")], name=name, heap=heap)
+    out = res["out"]
+    r = {"accepted": False, "violated": None, "prefix": None, "out": out, "distinct": res.get("distinct", 0), "generated": res.get("generated", 0)}
+    if res.get("timeout"):
+        raise MachineryError("trace validation timed out (%s)" % name)
+    m = re.search(r'"TRACE_REJECTED_AT",\s*(\d+),', out)
+    if res["violated"] and res["violated"] != "deadlock":
+        r["violated"] = res["violated"]
+        ms = re.findall(r"^/\\ l = (\d+)", out, re.M)
+        r["prefix"] = int(ms[-1]) if ms else None
+    elif m:
+        r["prefix"] = int(m.group(1))
+    elif res["finished"]:
+        r["accepted"] = True
     return r
 
 
